@@ -43,6 +43,41 @@ def c09Scan (store0 : List Nat) (b : Nat) : List Nat × Bool → List Rec09 → 
 def holdsC09 (store0 : List Nat) (b : Nat) (tr : List Rec09) : Option String :=
   c09Scan store0 b ([], true) tr
 
+/-! ### generators with residual-adaptive refinement (`n_eff < n`)
+
+Same clauses, where "all points" means the *active* points (the `n_eff` points with non-zero sampling
+probability): the store stays a permutation of the whole initial store, a reshuffle happens exactly when
+all active points have been served, no active point is served twice within an epoch when `b ∣ n_eff`.
+(Inactive pre-allocated slots may be reached by the last slice of an epoch when `b ∤ n_eff`: no property
+forbids it and it is not checked.) -/
+
+def c09StepA (store0 active : List Nat) (b : Nat) (st : List Nat × Bool) (r : Rec09) :
+    Except String (List Nat × Bool) :=
+  let (served, first) := st
+  if !(r.store.isPerm store0) then .error "store-not-a-permutation-of-the-initial-store"
+  else if r.batch.length != b then .error "batch-size"
+  else if !(subset r.batch r.store) then .error "batch-point-not-in-store"
+  else if first then .ok (r.batch, false)
+  else if r.reset then
+    if subset active served then .ok (r.batch, false)
+    else .error "reshuffle-before-all-points-served"
+  else
+    if subset active served then .error "no-reshuffle-although-all-points-served"
+    else if active.length % b == 0 && !(disjoint r.batch served) then
+      .error "point-served-twice-within-epoch"
+    else .ok (served ++ r.batch, false)
+
+def c09ScanA (store0 active : List Nat) (b : Nat) : List Nat × Bool → List Rec09 → Option String
+  | _, [] => none
+  | st, r :: rs =>
+    match c09StepA store0 active b st r with
+    | .error e => some e
+    | .ok st' => c09ScanA store0 active b st' rs
+
+/-- `Holds.C09` relative to the set of active points. -/
+def holdsC09Active (store0 active : List Nat) (b : Nat) (tr : List Rec09) : Option String :=
+  c09ScanA store0 active b ([], true) tr
+
 end Jinns.Holds
 
 namespace Jinns.Minibatch
